@@ -578,7 +578,12 @@ class ViewParameter(AbstractParameter, ParameterListener):
 
     @tensor.setter
     def tensor(self, tensor: Tensor) -> None:
-        self.parameter.tensor[..., self.indices] = tensor
+        if self.parameter.requires_grad:
+            # a leaf tensor that requires grad cannot be modified in place
+            with torch.no_grad():
+                self.parameter.tensor[..., self.indices] = tensor
+        else:
+            self.parameter.tensor[..., self.indices] = tensor
         self.parameter.fire_parameter_changed()
 
     @property
